@@ -2,14 +2,14 @@
 
     G: what Go prescribes = the closed form of each template's output (every template is a data-race-free
        program whose output does not depend on the schedule), and no data race report.
-    Y: what the interpreter's mechanism admits. It depends on the select variant the SOURCE is in
+    Y: what the interpreter's mechanism accepts. It depends on the select variant the SOURCE is in
        (Conc/Capture.v, read from interp/run.go by tr-capture on every run):
        - a select statement executed by one goroutine at a time, and everything else: as G;
        - ONE select statement executed concurrently by >= 2 goroutines on private channels ([TSelPriv], n >= 2)
          in variant [Shared]: the vector of channel operands is shared, so a worker may receive on another
          worker's channels (Conc/Proofs.v [select_shared_refuted]); the per-worker figures are then not
-         determined. Y admits every well-formed result (each value is received at most once) and any race
-         report that involves the closure of [_select]; in variant [PerExec] it admits exactly G's outcome;
+         determined. Y accepts every well-formed result (each value is received at most once) and any race
+         report that involves the closure of [_select]; in variant [PerExec] it accepts exactly G's outcome;
        - a send clause whose value is an expression ([TSelSendX]): the operand sub-expression is not
          evaluated (slot still zero), every value sent is [0 + b].
     Definitions only. *)
@@ -162,7 +162,7 @@ Definition strict (p : params) (o : observed) (expected : list Z) : bool :=
   && negb (o_crash_nilcall o) && list_z_eqb (o_out o) expected.
 
 (** [v]: the select variant, [wb]: getFunc's write-back — both read from the source (Conc/Capture.v) *)
-Definition y_admits (v : variant) (wb : bool) (p : params) (o : observed) : bool :=
+Definition y_accepts (v : variant) (wb : bool) (p : params) (o : observed) : bool :=
   if literal_reevaluated p && wb then
     negb (o_race_select o) && negb (o_race_other o)
     && (o_crash_nilcall o || (o_ok o && golit_wellformed p (o_out o)))
@@ -171,4 +171,4 @@ Definition y_admits (v : variant) (wb : bool) (p : params) (o : observed) : bool
        | _, _ => strict p o (y_expected p)
        end.
 
-Definition g_admits (p : params) (o : observed) : bool := strict p o (g_expected p).
+Definition g_accepts (p : params) (o : observed) : bool := strict p o (g_expected p).
